@@ -26,7 +26,7 @@ P = {
          "cross-version dedup is documented by the library as incompatible and is outside the property"),
  "C10": (True, "model_checking", "6 C10",
          "TLA+ object-table and graph-codec specification (Refs.tla) checked by TLC on every small rooted graph; each graph replayed with an Rc<RefCell<Node>> codec built on the library's reference-tracking API, compared by bytes and by pointer-identity canonical form",
-         "all 2249 successor structures on <= 3 nodes (out-degree <= 2) x 2 labelings: isomorphism incl. sharing and distinctness, each reachable object written once, ids in pre-order, termination on cycles; every stream byte rewritten to an object number beyond the table must be rejected as the reference says. Chains of 130 (129 .. 300) nodes whose back-reference cites objects on both sides of 127/128 and 255/256; all offer sequences <= 4 over a record, its first member (same address) and an unrelated object.",
+         "all 2249 successor structures on <= 3 nodes (out-degree <= 2) x 2 labelings: isomorphism incl. sharing and distinctness, each reachable object written once, ids in pre-order, termination on cycles; every stream byte rewritten to an object number beyond the table must be rejected as the reference says. Chains of 130 (129 .. 300) nodes whose back-reference cites objects on both sides of 127/128 and 255/256; all offer sequences <= 4 over a record, its first member (same address) and an unrelated object; sharing across the chunks of a record with a header; the table's events of every replayed graph validated by Trace_Refs.",
          "the graph codec is harness code (the library ships none); decoded nodes are registered from a boxed arena because the table stores raw pointers (D13)"),
  "C11": (True, "model_checking", "6 C11",
          "VarintCore.tla instantiated twice: over unbounded Int for Apalache (statements proved for all 2^32 u32 and all 2^32 i32 values) and over <<hi4, lo28>> pairs for TLC (all group / zig-zag boundaries, emitted as vectors); replay of the vectors through 4 sinks x 3 sources and a sweep of the real functions against a transliteration of the spec pinned to the vectors",
